@@ -13,10 +13,19 @@ MANIFEST = {
 }
 
 PROFILES = [(Profile(p_fault=0.9, n_faults=(1, 2), n_procs=(0, 2), p_valid=0.7, p_cfg=0.4, p_cfg_unsat=0.3, p_loader_fail=0.05, p_runner=0.4,
-                     kind_weights={"ptr": 4, "iface": 4, "sptr": 2, "siface": 3, "name": 3, "any": 0.3, "func": 1, "other": 0.8}), 480, 5000),
-            (Profile(p_fault=0.3, n_procs=(1, 3), proc_points=0.7, p_valid=0.7, p_cycle_bias=0.3, fields=(1, 3)), 120, 1000)]
+                     kind_weights={"ptr": 4, "iface": 4, "sptr": 2, "siface": 3, "name": 3, "any": 0.3, "func": 1, "other": 0.8}, p_crowd=0.0), 480, 5000),
+            (Profile(p_fault=0.3, n_procs=(1, 3), proc_points=0.7, p_valid=0.7, p_cycle_bias=0.3, fields=(1, 3), p_crowd=0.0), 120, 1000),
+            # "optional ones never do": no fault anywhere, most components carry configuration points, half of them without a
+            # configured value, most of those optional - their tags spell the point as value / prop shorthand / prefix with the
+            # Required argument alone, first, last or between further arguments (wiring.cfield_tag): such a start succeeds
+            (Profile(p_fault=0.0, n_procs=(0, 1), p_wrap=0.0, p_valid=0.95, p_cfg=0.9, p_cfg_unsat=0.5, p_optional=0.75, p_lazy=0.1,
+                     max_types=4, fields=(0, 2), p_crowd=0.0), 100, 800)]
+# no crowd scenarios here: the KF-C05a classification (bad_holders / early_created) is far from linear in the population
 
-RULE = 'base scenarios x one or two faults (required point, AfterPropertiesSet, Init, processor callback, loader, runner, required config value); non-trivial = scenario contains a fault or an unsatisfiable required point'
+RULE = ('base scenarios x one or two faults (required point, AfterPropertiesSet, Init, processor callback, loader, runner, required config value), '
+        'plus fault-free scenarios whose optional injection and configuration points are unsatisfied (configuration points tagged as '
+        'value / prop shorthand / prefix with required=false alone, first, last or between further arguments); non-trivial = scenario '
+        'contains a fault or an unsatisfiable required point')
 
 
 def _pt(target, sel, required=True, slice_=False):
